@@ -51,12 +51,8 @@ def build(v):
             return t.encode('latin-1', 'replace') if v['kind'] == 'bytes' else t
         if '__class__' in v:
             cls = resolve(v['__class__'])
-            o = cls.__new__(cls)
-            for k, x in v['fields'].items():
-                try:
-                    object.__setattr__(o, k, build(x))
-                except Exception:
-                    pass
+            o = construct(cls, v['fields'])
+            apply_fields(o, v['fields'])
             return o
         if '__real__' in v:
             return BUILDERS[v['__real__']](v)
@@ -66,6 +62,45 @@ def build(v):
     if isinstance(v, str) and '.' in v and v.split('.')[0] in ENUMS:
         return getattr(ENUMS[v.split('.')[0]], v.split('.')[1])
     return v
+
+
+def is_placeholder(x):
+    """model values that carry no information: opaque symbols and maps whose content was not read on the path"""
+    if isinstance(x, str) and x.startswith('Opaque('):
+        return True
+    return isinstance(x, dict) and set(x) == {'__map__'}
+
+
+def construct(cls, fields):
+    """Real objects through their real constructors where that is possible, so that every field the
+    symbolic path did not read has the value the real __init__ gives it; bare __new__ otherwise."""
+    try:
+        import h2.connection, h2.config
+        if cls is h2.config.H2Configuration:
+            cs = fields.get('client_side')
+            return cls(client_side=cs if isinstance(cs, bool) else True)
+        if cls is h2.connection.H2Connection:
+            cfg = fields.get('config')
+            return cls(config=build(cfg) if isinstance(cfg, dict) and '__class__' in cfg else None)
+        if cls.__module__.startswith('h2.') and cls.__name__ in ('H2ConnectionStateMachine', 'FrameBuffer', 'Settings'):
+            return cls()
+    except Exception:
+        pass
+    return cls.__new__(cls)
+
+
+def apply_fields(o, fields):
+    for k, x in fields.items():
+        if is_placeholder(x):
+            continue
+        try:
+            cur = getattr(o, k, None) if k in getattr(o, '__dict__', {}) else None
+            if isinstance(x, dict) and '__class__' in x and cur is not None and type(cur) is resolve(x['__class__']):
+                apply_fields(cur, x['fields'])      # keep the really-constructed sub-object, overwrite what the model fixes
+            else:
+                object.__setattr__(o, k, build(x))
+        except Exception:
+            pass
 
 
 def decode_z3_string(s):
